@@ -9,7 +9,7 @@ index by exactly one and yields the element at the *old* index, None paths leave
 scalar arm yields exactly once."""
 from ..facts import show, site, unwrap, walk
 from ..symx import all_calls, closure_paths, cshow, paths_of, simp, tshow
-from ..terms import display_norm, is_call, mentions, same, subterms
+from ..terms import display_norm, is_call, mentions, opt_polarity, same, subterms
 
 ADD = "ipp::attribute::IppAttributes::add"
 GROUPS_OF = "ipp::attribute::IppAttributes::groups_of"
@@ -68,7 +68,7 @@ def check_add(run, F, prefix="R-CONTAINER"):
                 ok_clo = tag_eq_closure(b, f[2][1], tag_p)
                 run.ob(prefix, "add: first-match search over the group list in message order [%s]" % ("hit" if "!" not in c[2] else "miss"), ok_src and ok_clo,
                        "search is %s" % tshow(f)[:200], site(b), key="%s|%s|search" % (prefix, ADD))
-                hit = (c[3] is True) if isinstance(c[3], bool) else not c[2].startswith("!")
+                hit = opt_polarity(c)
                 hit_group = ("proj", f, "Some.0")
         other_lookups = [t for t in calls if is_call(t) and t[1].split("::")[-1] in ("last", "last_mut", "rfind", "rposition", "rev", "max_by_key", "min_by_key", "first",
                                                                                         "first_mut", "nth") and
